@@ -12,6 +12,7 @@ import (
 	"reflect"
 	"strconv"
 	"time"
+	"unicode/utf8"
 	"unsafe"
 
 	"github.com/cockroachdb/redact"
@@ -142,9 +143,10 @@ func (b *builder) sub(v *Val, i int) interface{} {
 	return nil
 }
 
-func (b *builder) pan(v *Val) *panicSpec {
+func (b *builder) pan(v *Val) panicSpec {
 	// panicking variants have K suffix "!" ; payload = Sub[0]
-	return &panicSpec{Payload: b.sub(v, 0)}
+	payload := b.sub(v, 0)
+	return func() interface{} { return payload }
 }
 
 func (b *builder) build(v *Val) interface{} {
@@ -163,8 +165,19 @@ func (b *builder) build(v *Val) interface{} {
 	case "nbytes":
 		return NBytes(v.bytes(in))
 	case "barr":
+		// the first runes that fit entirely (a cut through a rune would turn a
+		// valid-UTF-8 payload into an invalid one)
 		var a [3]byte
-		copy(a[:], v.bytes(in))
+		src := v.bytes(in)
+		n := 0
+		for n < len(src) {
+			_, sz := utf8.DecodeRune(src[n:])
+			if n+sz > 3 {
+				break
+			}
+			n += sz
+		}
+		copy(a[:], src[:n])
 		return a
 	case "bool":
 		return v.int(in) != 0
@@ -272,9 +285,9 @@ func (b *builder) build(v *Val) interface{} {
 	case "gostrstringer":
 		return GoStrStringer{S: v.str(in)}
 	case "fmter":
-		return &FormatterV{ops: v.Ops, inst: in}
+		return &FormatterV{run: b.formatterScript(v.Ops)}
 	case "errfmter":
-		return &ErrFormatter{S: v.str(in), ops: v.Ops, inst: in}
+		return &ErrFormatter{S: v.str(in), run: b.formatterScript(v.Ops)}
 	case "sstringer":
 		return StrStringer(v.str(in))
 	case "istringer":
@@ -328,11 +341,11 @@ func (b *builder) build(v *Val) interface{} {
 	case "unsafe":
 		return redact.Unsafe(b.sub(v, 0))
 	case "safefmt":
-		return SafeFmtV{ops: v.Ops, inst: in}
+		return SafeFmtV{run: b.printerScript(v.Ops)}
 	case "psafefmt":
-		return &SafeFmtP{ops: v.Ops, inst: in}
+		return &SafeFmtP{run: b.printerScript(v.Ops)}
 	case "errsafefmt":
-		return &ErrSafeFmt{S: v.str(in), ops: v.Ops, inst: in}
+		return &ErrSafeFmt{S: v.str(in), run: b.printerScript(v.Ops)}
 	case "safemsg":
 		return SafeMsgV{S: v.str(in)}
 	case "safemsg!":
@@ -345,7 +358,7 @@ func (b *builder) build(v *Val) interface{} {
 		return b.print(v.Pr).ToBytes()
 	case "sb", "psb":
 		var sb redact.StringBuilder
-		runWriterOps(&sbTarget{b: &sb}, v.Ops, in)
+		runCompiled(&sbTarget{b: &sb}, b.compile(v.Ops), in, nil)
 		if v.K == "psb" {
 			return &sb
 		}
@@ -533,25 +546,68 @@ func stateString(st fmt.State, verb rune, withZero bool) string {
 	return s + "%" + string(verb) + "]"
 }
 
-func runFormatterOps(st fmt.State, verb rune, ops []*Op, inst int) {
-	for _, op := range ops {
+// compiled is an op whose operands have been built once, so that a script
+// prints the same objects every time it runs (fmt and redact see the same
+// addresses) and builds nothing while printing.
+type compiled struct {
+	op   *Op
+	args []interface{}
+	sub  []*compiled
+}
+
+func (b *builder) compile(ops []*Op) []*compiled {
+	out := make([]*compiled, len(ops))
+	for i, op := range ops {
+		c := &compiled{op: op}
+		for _, a := range op.Args {
+			c.args = append(c.args, b.build(a))
+		}
+		c.sub = b.compile(op.Ops)
+		out[i] = c
+	}
+	return out
+}
+
+func compileOps(ops []*Op, inst int) []*compiled { return (&builder{inst: inst}).compile(ops) }
+
+func (b *builder) formatterScript(ops []*Op) func(fmt.State, rune) {
+	cs, inst := b.compile(ops), b.inst
+	return func(st fmt.State, verb rune) { runFormatterOps(st, verb, cs, inst) }
+}
+
+func (b *builder) printerScript(ops []*Op) func(redact.SafePrinter, rune) {
+	cs, inst := b.compile(ops), b.inst
+	return func(p redact.SafePrinter, verb rune) { runCompiled(&printerTarget{p: p, verb: verb}, cs, inst, nil) }
+}
+
+// newSafeFmtV: a SafeFormatter running the given writer script.
+func newSafeFmtV(ops []*Op, inst int) SafeFmtV {
+	return SafeFmtV{run: (&builder{inst: inst}).printerScript(ops)}
+}
+func newSafeFmtP(ops []*Op, inst int) *SafeFmtP {
+	return &SafeFmtP{run: (&builder{inst: inst}).printerScript(ops)}
+}
+
+func runFormatterOps(st fmt.State, verb rune, ops []*compiled, inst int) {
+	for _, c := range ops {
+		op := c.op
 		switch op.K {
 		case "Write":
 			st.Write([]byte(op.str(inst)))
 		case "WriteString":
 			io.WriteString(st, op.str(inst))
 		case "Fprintf":
-			fmt.Fprintf(st, op.str(inst), BuildAll(op.Args, inst)...)
+			fmt.Fprintf(st, op.str(inst), c.args...)
 		case "Fprint":
-			fmt.Fprint(st, BuildAll(op.Args, inst)...)
+			fmt.Fprint(st, c.args...)
 		case "State":
 			io.WriteString(st, stateString(st, verb, false))
 		case "Fwd":
 			_, f := redact.MakeFormat(st, verb)
-			fmt.Fprintf(st, f, BuildAll(op.Args, inst)...)
+			fmt.Fprintf(st, f, c.args...)
 		case "SP":
 			if sp, ok := st.(redact.SafePrinter); ok {
-				runWriterOps(&printerTarget{p: sp}, op.Ops, inst)
+				runCompiled(&printerTarget{p: sp, verb: verb}, c.sub, inst, nil)
 			} else {
 				for _, o := range op.Ops {
 					io.WriteString(st, o.str(inst))
@@ -559,16 +615,12 @@ func runFormatterOps(st fmt.State, verb rune, ops []*Op, inst int) {
 			}
 		case "Panic":
 			var payload interface{}
-			if len(op.Args) > 0 {
-				payload = Build(op.Args[0], inst)
+			if len(c.args) > 0 {
+				payload = c.args[0]
 			}
 			panic(payload)
 		default:
 			panic("HARNESS: unknown formatter op " + op.K)
 		}
 	}
-}
-
-func runWriterOpsOnPrinter(p redact.SafePrinter, verb rune, ops []*Op, inst int) {
-	runWriterOps(&printerTarget{p: p, verb: verb}, ops, inst)
 }
